@@ -423,6 +423,50 @@ func scenDups(rep *Report, tier string, seed int64) {
 			rep.Sample(map[string]interface{}{"pattern": pat, "wedged_with_duplicates": stuck[true]})
 		}
 	}
+	// a conversion held before the database has seen any rates at all: the first rated block
+	// executes it (the pass walks the holding table from the last rated height, 0 when there is
+	// none). Funds come from FCT burns, which need no rates.
+	{
+		acts := Acts{Pegnet: 0, GradingV2: 1, TxConv: 2, PegPricing: 3, OneWayFCT: 20, ConvLimit: 30, PegFloat: 30, RCDE: 40, V4: 40,
+			V20: 50, DevRewards: 200, SprSig: 200, OneWaySmall: 210, V202: 210, V204: 300, V204Burn: 310, PIP10: 400}
+		s2 := Setup{Acts: acts, AvgPeriod: 8, SyncVersion: mainnetSyncVersion}
+		gg := NewGen(seed, 3, 0)
+		if run, err := NewRun(s2); err != nil {
+			rep.Note("infrastructure: %v", err)
+		} else {
+			w := &World{G: gg, Run: run, S: s2, Rep: rep}
+			u := gg.Users[0]
+			b1 := &BlockSpec{Height: 1, Time: BlockTime(1)}
+			for i, x := range gg.Users {
+				b1.FCT = append(b1.FCT, Burn(1, x.FA(), 100e8, i))
+			}
+			conv := gg.Batch(3, u, []fat2.Transaction{Conversion(u.FA(), fat2.PTickerFCT, 25e8, fat2.PTickerUSD)})
+			b3 := &BlockSpec{Height: 3, Time: BlockTime(3), TX: []factom.Entry{conv}}
+			b5 := &BlockSpec{Height: 5, Time: BlockTime(5)}
+			plan := []*BlockSpec{b1, {Height: 2, Time: BlockTime(2)}, b3, {Height: 4, Time: BlockTime(4)}, b5, {Height: 6, Time: BlockTime(6)}}
+			okSoFar := true
+			for _, b := range plan {
+				if b.Height >= 5 {
+					b.OPR = gg.OPRSet(b.Height, OPRVersionAt(acts, b.Height), w.LastShortHashes(b.Height), 25, gg.Rates, nil)
+				}
+				if _, cont := stepExpectOK(rep, run, b, seed, "a conversion held before any block had rates", "dups"); !cont {
+					okSoFar = false
+					break
+				}
+			}
+			if okSoFar {
+				rep.Case("held-before-first-rates", true)
+				rep.Count("dups:held-before-first-rates")
+				if got := w.Balance(u.FA(), fat2.PTickerFCT); got != 75e8 {
+					rep.Violate("dups:held-before-first-rates", fmt.Sprintf("the conversion held at height 3 (no rated block before height 5) was not executed by the first rated block: pFCT balance %d, expected %d", got, uint64(75e8)), "")
+				}
+			}
+			if w.ro != nil {
+				w.ro.Close()
+			}
+			run.Close()
+		}
+	}
 	rep.Rule = "one evaluation = one repetition pattern (same block, next block, across ungraded blocks, after execution, after rejection, while pending) synced twice — with the duplicates and with first occurrences only — in lock-step with the model; balances, relations and holding must be equal and every block must apply; distinct = patterns"
 }
 
@@ -473,7 +517,7 @@ func scenSigMut(rep *Report, tier string, seed int64) {
 			asset = fat2.PTickerPEG
 			bal = w.Balance(signer.FA(), asset)
 		}
-		amount := bal / 10
+		amount := bal / 100 // small: every mutant that executes (known finding: RCD-e recovery byte) spends it again, and the held conversion below must stay funded
 		txs := []fat2.Transaction{Transfer(signer.FA(), asset, fat2.AddressAmountTuple{Address: dst, Amount: amount})}
 		orig := g.Batch(h, signer, txs)
 		// mutants
@@ -604,7 +648,10 @@ func scenSigMut(rep *Report, tier string, seed int64) {
 				rep.Count("sigmut:foreign-input-batches")
 			}
 		}
-		entries := append([]factom.Entry{orig}, muts...)
+		// one more validly signed entry by the same key: a conversion, which is held and executed
+		// (re-validated, signature and key type included) by the next rated block
+		held := g.Batch(h, signer, []fat2.Transaction{Conversion(signer.FA(), asset, bal/20, fat2.PTickerUSD)})
+		entries := append([]factom.Entry{orig, held}, muts...)
 		b := &BlockSpec{Height: h, Time: BlockTime(h), TX: entries}
 		b.OPR = g.OPRSet(h, OPRVersionAt(s.Acts, h), w.LastShortHashes(h), 25, g.Rates, nil)
 		before := w.Balance(signer.FA(), asset)
@@ -669,6 +716,33 @@ func scenSigMut(rep *Report, tier string, seed int64) {
 		}
 		if expectOrig == 0 && executed > 0 {
 			rep.Violate("sigmut:key-type-before-activation:"+ec.name, "an RCD-e signed entry executed before the key type was activated", "")
+		}
+		if res.ImplOK && cont {
+			b2 := &BlockSpec{Height: h + 1, Time: BlockTime(h + 1)}
+			b2.OPR = g.OPRSet(h+1, OPRVersionAt(s.Acts, h+1), w.LastShortHashes(h+1), 25, g.Rates, nil)
+			res2, cont2 := stepExpectOK(rep, run, b2, seed, "the block that executes the held conversion ("+ec.name+")", "sigmut")
+			w.close()
+			if res2.ImplOK {
+				var exec int64
+				found := false
+				for _, bb := range ParseDump(res2.Dump).B {
+					if bb.hash == hx(held.Hash[:]) {
+						exec, found = bb.exec, true
+					}
+				}
+				rep.Case(fmt.Sprintf("%s|held-conversion|recorded=%v|status=%d", ec.name, found, exec), true)
+				rep.Count("sigmut:held-conversion:" + ec.name)
+				if expectOrig == 1 && exec != int64(h+1) {
+					path := WriteReplay(rep.Property, "sigmut-held", Replay{Property: rep.Property, Scenario: "sigmut", Seed: seed, Setup: s,
+						What:   fmt.Sprintf("%s: a validly signed conversion entered at height %d was not executed by the next rated block (recorded=%v, status %d)", ec.name, h, found, exec),
+						Blocks: ChainJSON(run.Chain)})
+					rep.Violate("sigmut:valid-held-entry-not-executed:"+ec.name, fmt.Sprintf("held conversion %s: recorded=%v status=%d, expected executed at %d", hx(held.Hash[:]), found, exec, h+1), path)
+				}
+				if expectOrig == 0 && found {
+					rep.Violate("sigmut:key-type-before-activation:held:"+ec.name, "an RCD-e signed conversion was recorded before the key type was activated", "")
+				}
+			}
+			cont = cont2
 		}
 		if len(rep.Samples) < 4 {
 			rep.Sample(map[string]interface{}{"era": ec.name, "mutants": len(muts), "executed": executed, "executed_kinds": executedKinds})
